@@ -1,4 +1,5 @@
 mod checks;
+mod ebrworld;
 mod pure;
 mod seq;
 mod rcgen;
